@@ -31,7 +31,12 @@ func init() {
 			"Not covered: which kinds the four entry points let through (C18/C03), malformed bounds (C13).",
 		Assume:  []string{"reflect.Value accessors and strconv.Atoi behave as documented", "64-bit int on the default configuration (linux/386 analysed in the thorough tier)"},
 		Trusted: []string{"go/types", "go/ssa", "specification table in c01_size.go (from README 4.2.1 and the property statement)"},
-		Run:     func(c *Ctx) { runC01(c); runC01Exact(c); importRules(c, "C18", func(s *Ctx) { runC18(s); runC18VarKinds(s); runFieldIdentity(s, "C18-FIELDID") }, "C01-ENTRY", "the value measured is the one the caller supplied, through every entry point: URL values decoded exactly once from the caller's text and cut from their own parameter, struct fields read at their own offset, Var admits every numeric kind, all walkers follow the common skeleton (rules C18-URL, C18-FIELDID, C18-VARKINDS, C18-SKEL)", 6, ruleIn("C18-URL", "C18-FIELDID", "C18-VARKINDS", "C18-SKEL")); base(c, "DECLARED", "STATE", "ALIAS", "LOOP", "TEXT") },
+		Run: func(c *Ctx) {
+			runC01(c)
+			runC01Exact(c)
+			importRules(c, "C18", func(s *Ctx) { runC18(s); runC18VarKinds(s); runFieldIdentity(s, "C18-FIELDID") }, "C01-ENTRY", "the value measured is the one the caller supplied, through every entry point: URL values decoded exactly once from the caller's text and cut from their own parameter, struct fields read at their own offset, Var admits every numeric kind, all walkers follow the common skeleton (rules C18-URL, C18-FIELDID, C18-VARKINDS, C18-SKEL)", 6, ruleIn("C18-URL", "C18-FIELDID", "C18-VARKINDS", "C18-SKEL"))
+			base(c, "DECLARED", "STATE", "ALIAS", "LOOP", "TEXT")
+		},
 	})
 }
 
@@ -39,7 +44,6 @@ type sizeSpec struct {
 	two    bool
 	violIf func(lo, hi int) (viol, known bool) // order classes: 0 m<b, 1 m=b, 2 m>b, -1 not compared
 }
-
 
 var sizeSpecs = map[string]sizeSpec{
 	"to": {two: true, violIf: func(lo, hi int) (bool, bool) {
@@ -86,7 +90,7 @@ var (
 	// the same two bounds cut out by index instead of Split: V[:Index(V,'~')] and V[Index(V,'~')+1:]
 	reBoundLoIdx = regexp.MustCompile(`^valid\.ParseValidNameKV\(validName\)#1\[:strings\.(?:Last)?Index(?:Byte)?\(valid\.ParseValidNameKV\(validName\)#1, (?:126|"~")\)\]$`)
 	reBoundHiIdx = regexp.MustCompile(`^valid\.ParseValidNameKV\(validName\)#1\[\(strings\.(?:Last)?Index(?:Byte)?\(valid\.ParseValidNameKV\(validName\)#1, (?:126|"~")\) \+ 1\):\]$`)
-	reBoundOne = regexp.MustCompile(`^valid\.ParseValidNameKV\(validName\)#1$`)
+	reBoundOne   = regexp.MustCompile(`^valid\.ParseValidNameKV\(validName\)#1$`)
 )
 
 // sizeDomain installs the measure/bound domain on an interpreter.
